@@ -70,13 +70,13 @@ func (f *Func) Init(raw string) error {
 	}
 	// Only the path part is escaped.
 	var err error
-	if f.Complete, err = url.QueryUnescape(raw); err != nil {
+	if f.Complete, err = url.PathUnescape(raw); err != nil {
 		return fmt.Errorf("bad function reference: %w", err)
 	}
 	// Update the index in the unescaped string. Only the escapes located in
 	// the package part shift it.
 	if endPkg > 0 {
-		if pkg, err := url.QueryUnescape(raw[:endPkg]); err == nil {
+		if pkg, err := url.PathUnescape(raw[:endPkg]); err == nil {
 			endPkg = len(pkg)
 		}
 	}
